@@ -120,4 +120,66 @@ theorem callers_match :
     saveCallers = ["initGroupChain", "*groupChain.AddGroup"] ∧
     removeCallers = ["*groupChain.removeFromCommonAncestor"] := by decide
 
+/-- Lock discipline (what makes the sequential theorems of `Props/C19.lean` apply to concurrent
+    callers): `AddGroup` takes the chain lock — released only on return — BEFORE it reads the parent
+    entry and `lastGroup` and calls `save`; `removeFromCommonAncestor`, the only caller of `remove`,
+    takes it before reading the height and calling `remove`; `save`/`remove` never touch the lock.
+    Only the duplicate-id check and the consensus check run outside the lock. -/
+theorem lock_discipline :
+    addLockOrder = ["Has group.Id", "CheckGroup", "Lock", "defer Unlock", "Has group.Header.Parent",
+                    "touch chain.lastGroup", "call chain.save"] ∧
+    ancestorLockOrder = ["Lock", "defer Unlock", "call chain.height", "call chain.getGroupByHeight",
+                         "call chain.remove"] ∧
+    saveLockOps = [] ∧ removeLockOps = [] := by decide
+
+/-! ### key spaces: the model's keys are the source's, and the fork database cannot reach them -/
+
+def bytesOf (s : String) : Bytes := s.toList.map (fun c => UInt8.ofNat c.toNat)
+
+/-- The model's bookkeeping keys are the source's constants. -/
+theorem model_keys_match_source :
+    bytesOf lastGroupKey = curKey ∧ bytesOf groupCountKey = cntKey := by decide
+
+/-- All prefixed stores share one LevelDB; the fork database's prefix extends the chain's
+    (`"groupFork" = "group" ++ "Fork"`), so every fork key `X` is the chain-side raw key `"Fork" ++ X`. -/
+theorem fork_prefix_extends_chain_prefix :
+    groupForkDBPrefix.toList = groupChainPrefix.toList ++ "Fork".toList := by decide
+
+/-- The raw keys the group chain uses (without the store prefix), for a 32-byte id and a height key. -/
+def chainKeys (id hk : List Char) : List (List Char) :=
+  [id, hk, lastGroupKey.toList, groupCountKey.toList]
+
+/-- The raw keys `groupChainFork` uses: `group.Id`, `generateHeightKey(h)`, and its two markers. -/
+def forkKeys (id hk : List Char) : List (List Char) :=
+  [id, hk, latestGroupHeightKey.toList, groupCommonAncestorHeightKey.toList]
+
+/-- With real (32-byte) group ids and 8-byte height keys, no physical key of the fork database is
+    a physical key of the group chain: the shared key space is harmless. (An id of the form
+    `"Fork" ++ X` — 12 or 36 bytes — would collide; the correspondence run exercises that.) -/
+theorem fork_keyspace_disjoint (id id' hk hk' : List Char) (h1 : id.length = 32) (h2 : id'.length = 32)
+    (h3 : hk.length = 8) (h4 : hk'.length = 8) :
+    ∀ ck ∈ chainKeys id hk, ∀ fk ∈ forkKeys id' hk',
+      groupChainPrefix.toList ++ ck ≠ groupForkDBPrefix.toList ++ fk := by
+  intro ck hck fk hfk e
+  rw [fork_prefix_extends_chain_prefix, List.append_assoc] at e
+  have e' : ck = "Fork".toList ++ fk := List.append_cancel_left e
+  have hl : ck.length = 4 + fk.length := by rw [e']; simp; omega
+  have hf : fk.length = 32 ∨ fk.length = 8 ∨ fk.length = 11 ∨ fk.length = 24 := by
+    simp only [forkKeys, List.mem_cons, List.mem_nil_iff, or_false] at hfk
+    rcases hfk with rfl | rfl | rfl | rfl
+    · exact Or.inl h2
+    · exact Or.inr (Or.inl h4)
+    · exact Or.inr (Or.inr (Or.inl (by decide)))
+    · exact Or.inr (Or.inr (Or.inr (by decide)))
+  simp only [chainKeys, List.mem_cons, List.mem_nil_iff, or_false] at hck
+  rcases hck with rfl | rfl | rfl | rfl
+  · omega
+  · omega
+  · have : lastGroupKey.toList.length = 8 := by decide
+    omega
+  · have : groupCountKey.toList.length = 6 := by decide
+    omega
+
+example : (chainKeys (List.replicate 32 'a') (List.replicate 8 'h')).length = 4 := rfl
+
 end Rangers.Props.C19Facts
